@@ -45,7 +45,7 @@ OPTIONAL = list(TRIGGERS)
 
 
 def floors(tier):
-    f = {"a.streams": 50000 if tier == "quick" else 1500000, "b.table_twins": 10000, "b.strike_twins": 10000, "c.twins": 10000, "c.definitions_seen": 5000,
+    f = {"a.streams": 50000 if tier == "quick" else 1500000, "b.table_twins": 8000, "b.strike_twins": 8000, "c.twins": 10000, "c.definitions_seen": 5000,
          "c.labels_seen": 3000, "d.routes": 2000, "zero_streams": 500}
     for r in OPTIONAL:
         f["trigger_present_rule_off." + r] = 300
